@@ -4,6 +4,7 @@ use std::sync::Arc;
 pub mod c03;
 pub mod c04;
 pub mod c05;
+pub mod c06;
 pub mod c10;
 pub mod c11;
 pub mod c12;
@@ -24,6 +25,7 @@ pub fn lookup(id: &str) -> Option<Entry> {
         "C03" => Entry { id: "C03", run: c03::run, replay: c03::replay },
         "C04" => Entry { id: "C04", run: c04::run, replay: c04::replay },
         "C05" => Entry { id: "C05", run: c05::run, replay: c05::replay },
+        "C06" => Entry { id: "C06", run: c06::run, replay: c06::replay },
         "C10" => Entry { id: "C10", run: c10::run, replay: c10::replay },
         "C11" => Entry { id: "C11", run: c11::run, replay: c11::replay },
         "C12" => Entry { id: "C12", run: c12::run, replay: c12::replay },
